@@ -110,3 +110,27 @@ def is_wellformed(M):
         if len(set(seg.tolist())) != seg.size:
             return "duplicate minor index inside a line"
     return None
+
+
+def digest(x):
+    """Bitwise content of an argument (purity oracle): arrays, sparse storage, AdArrays,
+    scalars, lists."""
+    if x is None or isinstance(x, (bool, int, float, str)):
+        return repr(x)
+    if isinstance(x, np.generic):
+        return repr(x.item())
+    if isinstance(x, np.ndarray):
+        return ("nd", x.dtype.str, x.shape, x.tobytes())
+    if sps.issparse(x):
+        parts = [x.format, tuple(x.shape)]
+        for name in ("data", "indices", "indptr", "row", "col", "offsets"):
+            a = getattr(x, name, None)
+            if a is not None:
+                a = np.asarray(a)
+                parts.append((name, a.dtype.str, a.shape, a.tobytes()))
+        return tuple(parts)
+    if isinstance(x, (list, tuple)):
+        return tuple(digest(v) for v in x)
+    if hasattr(x, "val") and hasattr(x, "jac"):
+        return ("ad", digest(np.asarray(x.val)), digest(x.jac))
+    return ("obj", repr(x))
